@@ -209,6 +209,14 @@ func HarnessC13Missing() {
 	p.parse(doc)
 	verifReach("removed")
 	verifCheck(len(p.errors) >= 1, "missing-mandatory-key-reported")
+	// one of the diagnostics is about the missing key: it names it
+	named := 0
+	for _, e := range p.errors {
+		if !strings.Contains(e.Message, "unexpected key") && strings.Contains(e.Message, mk.key) {
+			named++
+		}
+	}
+	verifCheckf(named >= 1, "missing-mandatory-key-not-named-by-any-diagnostic", mk.key+": "+verifErrTextConc(p.errors))
 	if rename {
 		other := 0
 		for _, e := range p.errors {
@@ -225,7 +233,7 @@ func HarnessC13Missing() {
 // a job with several keys that do not fit its kind.
 func HarnessC13Siblings() {
 	s := yScalar
-	switch verifChoose("case", 6) {
+	switch verifChoose("case", 7) {
 	case 0, 1:
 		cronVal := []string{"", "invalid"}[verifChoose("cron", 2)]
 		cron := s(cronVal)
@@ -247,6 +255,23 @@ func HarnessC13Siblings() {
 		p.parse(doc)
 		verifReach("call-job")
 		verifCheck(verifErrAt(p.errors, k1) >= 1 && verifErrAt(p.errors, k2) >= 1, "inapplicable-job-key-not-reported")
+	case 6:
+		// a step with `with` and `working-directory` but no `uses`: the key that does not fit an
+		// action step is reported and so is the missing `uses`
+		wd := s("dir")
+		step := yMap(s("with"), yMap(s("a"), s("b")), s("working-directory"), wd)
+		doc := yDoc(yMap(s("on"), s("push"), s("jobs"), yMap(s("j"), yMap(s("runs-on"), s("ubuntu-latest"), s("steps"), ySeq(step)))))
+		verifPlace(doc, 1, 0)
+		p := &parser{}
+		p.parse(doc)
+		verifReach("normal-job")
+		uses := 0
+		for _, e := range p.errors {
+			if strings.Contains(e.Message, "\"uses\" is required") {
+				uses++
+			}
+		}
+		verifCheck(verifErrAt(p.errors, wd) >= 1 && uses >= 1, "missing-mandatory-key-hidden-by-an-unknown-sibling")
 	case 4:
 		// a stray `with` does not hide the missing mandatory keys
 		k1 := s("with")
@@ -259,7 +284,11 @@ func HarnessC13Siblings() {
 		verifCheck(verifErrAt(p.errors, k1) >= 1 && verifErrAt(p.errors, jid) >= 1, "missing-mandatory-key-hidden-by-an-unknown-sibling")
 	default:
 		k1, k2 := s("with"), s("secrets")
-		doc := yDoc(yMap(s("on"), s("push"), s("jobs"), yMap(s("j"), yMap(s("runs-on"), s("ubuntu-latest"), s("steps"), ySeq(yMap(s("run"), s("echo"))), k1, yMap(s("a"), s("b")), k2, yMap(s("c"), s("d"))))))
+		var secrets *yaml.Node = yMap(s("c"), s("d"))
+		if verifChoose("inherit", 2) == 1 {
+			secrets = s("inherit") // the scalar form is as inapplicable to a normal job as the mapping
+		}
+		doc := yDoc(yMap(s("on"), s("push"), s("jobs"), yMap(s("j"), yMap(s("runs-on"), s("ubuntu-latest"), s("steps"), ySeq(yMap(s("run"), s("echo"))), k1, yMap(s("a"), s("b")), k2, secrets))))
 		verifPlace(doc, 1, 0)
 		p := &parser{}
 		p.parse(doc)
